@@ -12,6 +12,7 @@ use crate::gets::{self, R};
 use crate::node::*;
 
 static SENTINEL: [u8; 8] = *b"SENTINEL";
+static SCRATCH: [u8; 4096] = [0x99; 4096];
 
 pub struct ReadRun {
     pub viol: Vec<Violation>,
@@ -37,7 +38,7 @@ fn first_chunk_len<B: Buf>(b: &B) -> usize {
     b.chunk().len()
 }
 
-pub fn gen_op(rng: &mut Rng, rest_len: usize, chunk_len: usize, first16: usize, root_is_take: bool, root_is_chain: bool, focus: &str) -> J {
+pub fn gen_op(rng: &mut Rng, rest_len: usize, chunk_len: usize, first16: usize, stale_hint: usize, root_is_take: bool, root_is_chain: bool, focus: &str) -> J {
     let n_arg = |rng: &mut Rng| -> usize {
         match rng.below(30) {
             0 | 1 => 0,
@@ -70,16 +71,43 @@ pub fn gen_op(rng: &mut Rng, rest_len: usize, chunk_len: usize, first16: usize, 
         J::obj().set("op", "get").set("m", name).set("nb", nb)
     };
     let w: &[u32] = match focus {
-        "typed" => &[2, 1, 1, 1, 1, 20, 1, 1, 2, 1, 1, 0],
-        "adapters" => &[4, 3, 2, 2, 4, 4, 4, 3, 6, 4, 3, 1],
-        _ => &[6, 5, 4, 3, 5, 5, 2, 2, 3, 2, 2, 1],
+        "typed" => &[2, 1, 1, 1, 1, 20, 1, 1, 2, 1, 1, 0, 0],
+        "adapters" => &[4, 3, 2, 2, 4, 4, 4, 3, 6, 4, 3, 1, 3],
+        _ => &[6, 5, 4, 3, 5, 5, 2, 2, 3, 2, 2, 1, 1],
     };
+    // a length far beyond anything that is there (and beyond anything an allocator can serve):
+    // the refusal must come before any attempt to provide room for it
+    let huge = |rng: &mut Rng| -> usize { *rng.pick(&[1usize << 50, isize::MAX as usize, usize::MAX, usize::MAX - rest_len, (isize::MAX as usize) - 7]) };
     match rng.weighted(w) {
-        0 => J::obj().set("op", "advance").set("n", n_arg(rng)),
-        1 => J::obj().set("op", "chunks_vectored").set("k", *rng.pick(&[0usize, 1, 2, 3, 16, 17, 32])),
+        12 => {
+            let which = *rng.pick(&["read_to_end", "read_to_string", "read_exact", "read_until", "bytes"]);
+            J::obj().set("op", "reader_std").set("m", which).set("n", n_arg(rng)).set("delim", rng.below(256))
+        }
+        0 => J::obj().set("op", "advance").set("n", if rng.chance(1, 40) { huge(rng) } else { n_arg(rng) }),
+        1 => {
+            let k = *rng.pick(&[0usize, 1, 2, 3, 16, 17, 32]);
+            let o = J::obj().set("op", "chunks_vectored").set("k", k);
+            // dst is an out-parameter: whatever the caller left in it must not matter. Stale
+            // entries of chosen lengths (for a root chain: exactly what its first half does not report)
+            match rng.below(4) {
+                0 if k >= 2 => {
+                    let mut lens = vec![J::from(0usize); k];
+                    let d = if stale_hint > 0 && stale_hint <= 4096 && rng.chance(2, 3) { stale_hint } else { rng.range(0, 40) };
+                    lens[k - 1] = J::from(d);
+                    if k >= 3 && rng.chance(1, 2) {
+                        let d0 = rng.range(0, d);
+                        lens[k - 1] = J::from(d - d0);
+                        lens[k - 2] = J::from(d0);
+                    }
+                    o.set("stale", J::Arr(lens))
+                }
+                1 if k >= 1 => o.set("stale", J::Arr((0..k).map(|_| J::from(rng.range(0, 30))).collect())),
+                _ => o,
+            }
+        }
         2 => J::obj().set("op", "copy_to_slice").set("n", n_arg(rng)),
         3 => J::obj().set("op", "try_copy_to_slice").set("n", n_arg(rng)),
-        4 => J::obj().set("op", "copy_to_bytes").set("n", n_arg(rng)),
+        4 => J::obj().set("op", "copy_to_bytes").set("n", if rng.chance(1, 30) { huge(rng) } else { n_arg(rng) }),
         5 => get_op(rng),
         6 => J::obj().set("op", "reader_read").set("n", n_arg(rng)),
         7 => J::obj().set("op", "reader_fill_consume").set("n", rng.range(0, chunk_len)),
@@ -215,7 +243,12 @@ fn do_op<B: Buf>(cx: &mut Ctx, b: &mut B, rest: &mut Vec<u8>, op: &J, what: &str
         }
         "chunks_vectored" => {
             let k = op.us("k").min(64);
-            let mut dst: Vec<IoSlice> = (0..k).map(|_| IoSlice::new(&SENTINEL)).collect();
+            let stale: Vec<usize> = op.arr("stale").iter().map(|x| (x.as_int() as usize).min(SCRATCH.len())).collect();
+            let before: Vec<(usize, usize)> = (0..k).map(|i| if stale.len() == k { (SCRATCH.as_ptr() as usize, stale[i]) } else { (SENTINEL.as_ptr() as usize, SENTINEL.len()) }).collect();
+            let mut dst: Vec<IoSlice> = (0..k).map(|i| if stale.len() == k { IoSlice::new(&SCRATCH[..stale[i]]) } else { IoSlice::new(&SENTINEL) }).collect();
+            if stale.len() == k && k > 0 {
+                cx.hit("vectored_stale_dst");
+            }
             let r = catch_unwind(AssertUnwindSafe(|| b.chunks_vectored(&mut dst)));
             match r {
                 Err(p) => {
@@ -246,8 +279,8 @@ fn do_op<B: Buf>(cx: &mut Ctx, b: &mut B, rest: &mut Vec<u8>, op: &J, what: &str
                     } else if !nonempty && len > 0 && k > 0 {
                         cx.law("chunks_vectored-empty", format!("{}: chunks_vectored filled {} slices, all empty, with {} bytes left", what, n, len));
                     }
-                    for s in &dst[n..] {
-                        if s.as_ptr() != SENTINEL.as_ptr() || s.len() != SENTINEL.len() {
+                    for (i, s) in dst.iter().enumerate().skip(n) {
+                        if (s.as_ptr() as usize != before[i].0 && s.len() > 0) || s.len() != before[i].1 {
                             cx.law("chunks_vectored-touched-beyond-count", format!("{}: chunks_vectored returned {} but modified dst beyond that", what, n));
                             break;
                         }
@@ -433,7 +466,16 @@ pub fn run(plan: &J, given: Option<&[J]>, rng: &mut Rng, max_ops: usize, focus: 
                         0
                     }
                 };
-                gen_op(rng, rest.len(), node.chunk().len(), first16, root_is_take, root_is_chain, focus)
+                let stale_hint = if let Node::Chain(c) = &node {
+                    let a = c.first_ref();
+                    let mut io = [std::io::IoSlice::new(&[]); 64];
+                    let n = a.chunks_vectored(&mut io).min(64);
+                    let rep: usize = io[..n].iter().map(|s| s.len()).sum();
+                    a.remaining().saturating_sub(rep)
+                } else {
+                    0
+                };
+                gen_op(rng, rest.len(), node.chunk().len(), first16, stale_hint, root_is_take, root_is_chain, focus)
             }
         };
         if given.is_none() {
@@ -509,6 +551,91 @@ pub fn run(plan: &J, given: Option<&[J]>, rng: &mut Rng, max_ops: usize, focus: 
                     Err(p) => {
                         cx.v(&["C12"], "reader-panicked", format!("fill_buf/consume panicked: {}", rt::panic_message(&*p)));
                         Flow::End
+                    }
+                }
+            }
+            "reader_std" => {
+                // the rest of std::io::{Read, BufRead} as provided for Reader (default methods or overrides)
+                let m = op.str("m").unwrap_or("").to_string();
+                let n = op.us("n").min(1 << 16);
+                let delim = op.us("delim") as u8;
+                let utf8_ok = std::str::from_utf8(&rest).is_ok();
+                let r = catch_unwind(AssertUnwindSafe(|| -> (std::io::Result<usize>, Vec<u8>) {
+                    let mut rd = (&mut node).reader();
+                    match m.as_str() {
+                        "read_to_end" => {
+                            let mut v = vec![0xAAu8; 3];
+                            let r = rd.read_to_end(&mut v);
+                            (r, v.split_off(3.min(v.len())))
+                        }
+                        "read_to_string" => {
+                            let mut st = String::from("ab");
+                            let r = rd.read_to_string(&mut st);
+                            let b = st.into_bytes();
+                            (r, b[2.min(b.len())..].to_vec())
+                        }
+                        "read_exact" => {
+                            let mut v = vec![0x55u8; n];
+                            let r = rd.read_exact(&mut v).map(|_| n);
+                            (r, v)
+                        }
+                        "read_until" => {
+                            let mut v = Vec::new();
+                            let r = rd.read_until(delim, &mut v);
+                            (r, v)
+                        }
+                        _ => {
+                            let mut v = Vec::new();
+                            for b in rd.bytes().take(n) {
+                                match b {
+                                    Ok(x) => v.push(x),
+                                    Err(e) => return (Err(e), v),
+                                }
+                            }
+                            let l = v.len();
+                            (Ok(l), v)
+                        }
+                    }
+                }));
+                cx.hit("reader_std_method");
+                match r {
+                    Err(p) => {
+                        cx.v(&["C12"], "reader-panicked", format!("Reader::{} panicked: {}", m, rt::panic_message(&*p)));
+                        Flow::End
+                    }
+                    Ok((res, got)) => {
+                        // what a reader that transfers min(available, requested) and never fails must give
+                        let want: Option<Vec<u8>> = match m.as_str() {
+                            "read_to_end" => Some(rest.clone()),
+                            "read_to_string" => if utf8_ok { Some(rest.clone()) } else { None },
+                            "read_exact" => if n <= rest.len() { Some(rest[..n].to_vec()) } else { None },
+                            "read_until" => Some(match rest.iter().position(|&b| b == delim) { Some(i) => rest[..=i].to_vec(), None => rest.clone() }),
+                            _ => Some(rest[..n.min(rest.len())].to_vec()),
+                        };
+                        match (res, want) {
+                            (Ok(cnt), Some(w)) => {
+                                if cnt != w.len() || got != w {
+                                    cx.v(&["C12"], "reader-std-result", format!("Reader::{}: returned Ok({}) with {} bytes delivered; expected {} bytes (the next bytes of the sequence)", m, cnt, got.len(), w.len()));
+                                    Flow::End
+                                } else {
+                                    if m == "read_to_string" && !rest.is_ascii() {
+                                        cx.hit("read_to_string_non_ascii");
+                                    }
+                                    rest.drain(..w.len());
+                                    Flow::Continue
+                                }
+                            }
+                            (Err(e), Some(w)) => {
+                                cx.v(&["C12"], "reader-failed", format!("Reader::{} returned Err({}) although {} bytes were there to deliver", m, e, w.len()));
+                                Flow::End
+                            }
+                            (Ok(cnt), None) => {
+                                cx.v(&["C12"], "reader-std-result", format!("Reader::{} returned Ok({}) although the stream {}", m, cnt, if m == "read_exact" { "is shorter than the request" } else { "is not valid UTF-8" }));
+                                Flow::End
+                            }
+                            // a short read_exact / invalid UTF-8: an error is the specified outcome; how much was consumed is unspecified
+                            (Err(_), None) => Flow::End,
+                        }
                     }
                 }
             }
@@ -771,4 +898,108 @@ pub fn run(plan: &J, given: Option<&[J]>, rng: &mut Rng, max_ops: usize, focus: 
     }
     let _ = cx.plan;
     ReadRun { viol: cx.viol, steps: ops_done.len(), ops: ops_done, straddles: cx.straddles, shortfalls: cx.shortfalls, panics: cx.panics, probes: cx.probes, digest }
+}
+
+// ------------------------------------------------------------------ chunks of 4 GiB and more
+
+/// The cursor laws on chunks whose length does not fit 32 bits (lazily zeroed memory straight
+/// from the system allocator, never read): remaining / chunk / chunks_vectored / advance must
+/// not depend on a length fitting in a u32. Run once per batch of the `laws` profile.
+pub fn huge_laws(probes: &mut std::collections::BTreeMap<&'static str, u64>) -> Vec<Violation> {
+    let mut out: Vec<Violation> = Vec::new();
+    #[cfg(all(target_pointer_width = "64", not(miri)))]
+    {
+        use std::alloc::{GlobalAlloc, Layout, System};
+        struct Region {
+            p: *mut u8,
+            n: usize,
+        }
+        unsafe impl Send for Region {}
+        impl AsRef<[u8]> for Region {
+            fn as_ref(&self) -> &[u8] {
+                unsafe { std::slice::from_raw_parts(self.p, self.n) }
+            }
+        }
+        impl Drop for Region {
+            fn drop(&mut self) {
+                unsafe { System.dealloc(self.p, Layout::from_size_align(self.n, 1).unwrap()) }
+            }
+        }
+        fn vectored<B: Buf>(what: &str, b: &B, out: &mut Vec<Violation>) {
+            let mut io = [IoSlice::new(&[]); 4];
+            let n = b.chunks_vectored(&mut io);
+            let total: u128 = io[..n.min(4)].iter().map(|s| s.len() as u128).sum();
+            let rem = b.remaining();
+            if rem > 0 && (n == 0 || n > 4 || total == 0 || total > rem as u128 || io[0].as_ptr() != b.chunk().as_ptr()) {
+                out.push(Violation { props: vec!["C09"], kind: "huge-chunk:chunks_vectored".into(), detail: format!("{}: {} bytes remain, chunk() has {}, chunks_vectored filled {} slices with {} bytes in total", what, rem, b.chunk().len(), n, total), step: 0 });
+            }
+        }
+        fn check<B: Buf>(what: &str, b: &mut B, total: usize, contiguous: usize, adv: usize, out: &mut Vec<Violation>) {
+            let r = catch_unwind(AssertUnwindSafe(|| {
+                let mut o = Vec::new();
+                if b.remaining() != total {
+                    o.push(Violation { props: vec!["C09"], kind: "huge-chunk:remaining".into(), detail: format!("{}: remaining() = {} for a sequence of {} bytes", what, b.remaining(), total), step: 0 });
+                }
+                if contiguous > 0 && b.chunk().len() != contiguous {
+                    o.push(Violation { props: vec!["C09"], kind: "huge-chunk:chunk".into(), detail: format!("{}: chunk() has {} bytes, the contiguous part has {}", what, b.chunk().len(), contiguous), step: 0 });
+                }
+                vectored(what, b, &mut o);
+                b.advance(adv);
+                if b.remaining() != total - adv {
+                    o.push(Violation { props: vec!["C09"], kind: "huge-chunk:advance".into(), detail: format!("{}: after advance({}) remaining() = {} (expected {})", what, adv, b.remaining(), total - adv), step: 0 });
+                }
+                vectored(what, b, &mut o);
+                let left = b.remaining();
+                if left > 1 {
+                    b.advance(left - 1);
+                    if b.remaining() != 1 || b.chunk().len() != 1 {
+                        o.push(Violation { props: vec!["C09"], kind: "huge-chunk:advance".into(), detail: format!("{}: after advancing to the last byte remaining() = {}, chunk() has {}", what, b.remaining(), b.chunk().len()), step: 0 });
+                    }
+                }
+                o
+            }));
+            match r {
+                Ok(o) => out.extend(o),
+                Err(p) => out.push(Violation { props: vec!["C09"], kind: "huge-chunk:panicked".into(), detail: format!("{}: {}", what, rt::panic_message(&*p)), step: 0 }),
+            }
+        }
+        for &(size, adv) in &[(1usize << 32, 0usize), ((1 << 32) + 5, 5), ((1 << 33) + 3, 3), ((1 << 32) - 1, 0), ((1 << 32) + 1, 0)] {
+            let p = unsafe { System.alloc_zeroed(Layout::from_size_align(size, 1).unwrap()) };
+            if p.is_null() {
+                *probes.entry("huge_chunk_unavailable").or_insert(0) += 1;
+                continue;
+            }
+            *probes.entry("huge_chunk_cases").or_insert(0) += 1;
+            let reg = Region { p, n: size };
+            let small = [7u8; 3];
+            {
+                let whole: &[u8] = reg.as_ref();
+                let mut s = whole;
+                check("&[u8] of 4 GiB+", &mut s, size, size, adv, &mut out);
+                let mut c = std::io::Cursor::new(whole);
+                check("Cursor<&[u8]> of 4 GiB+", &mut c, size, size, adv, &mut out);
+                let mut t = Buf::take(whole, usize::MAX);
+                check("Take<&[u8]> of 4 GiB+", &mut t, size, size, adv, &mut out);
+                let mut t2 = Buf::take(whole, size - 1);
+                check("Take<&[u8]> limited to len-1", &mut t2, size - 1, size - 1, adv, &mut out);
+                let mut ch = Buf::chain(&small[..], whole);
+                check("Chain<small, 4 GiB+>", &mut ch, size + 3, 3, adv + 3, &mut out);
+                let mut ch2 = Buf::chain(whole, &small[..]);
+                check("Chain<4 GiB+, small>", &mut ch2, size + 3, size, adv, &mut out);
+                let mut s3 = whole;
+                let mut bx: Box<dyn Buf + '_> = Box::new(&mut s3);
+                check("Box<dyn Buf> over &mut &[u8]", &mut bx, size, size, adv, &mut out);
+            }
+            let mut b = bytes::Bytes::from_owner(reg);
+            let mut b2 = b.clone();
+            check("Bytes (from_owner) of 4 GiB+", &mut b, size, size, adv, &mut out);
+            let mut c2 = std::io::Cursor::new(&mut b2);
+            check("Cursor<&mut Bytes> of 4 GiB+", &mut c2, size, size, adv, &mut out);
+            if !out.is_empty() {
+                break;
+            }
+        }
+    }
+    let _ = probes;
+    out
 }
